@@ -747,8 +747,10 @@ func reference(d Decl, q Req) expect {
 	}
 	if d.Type == "file" {
 		e := expect{State: "value"}
-		e.add(val{K: "file", S: texts[0]})
-		e.add(val{K: "file", S: texts[len(texts)-1]}) // a repeated file field: first or last, the text speaks of scalars only
+		// content, file name and size of the part; a repeated file field: first or last, the text speaks of scalars only
+		e.add(val{K: "file", S: fmt.Sprintf("f0.txt(%d bytes):%s", len(texts[0]), texts[0])})
+		n := len(texts) - 1
+		e.add(val{K: "file", S: fmt.Sprintf("f%d.txt(%d bytes):%s", n, len(texts[n]), texts[n])})
 		return e
 	}
 	if d.Type == "array" {
